@@ -20,7 +20,7 @@ def _fn(*a, **k):
     return ("fn", a)
 
 
-def check_submit_step(q: int, present: List[bool], broken: bool, shutdown: bool, gshut: bool) -> bool:
+def check_submit_step(q: int, present: List[bool], broken: bool, shutdown: bool, gshut: bool, spawn_fails: bool = False) -> bool:
     """
     pre: 0 <= q <= 4 and len(present) == q
     post: _
@@ -34,7 +34,7 @@ def check_submit_step(q: int, present: List[bool], broken: bool, shutdown: bool,
     wq = queue.Queue()
     fake = NS(_flags=flags, _pending_work_items=pending, _work_ids=wq, _queue_count=q,
               _executor_manager_thread_wakeup=FakeWakeup(log, sl),
-              _ensure_executor_running=lambda: log.add("ensure", sl.held))
+              _ensure_executor_running=lambda: _ensure(log, sl, spawn_fails))
     old = pe._global_shutdown
     pe._global_shutdown = gshut
     try:
@@ -46,9 +46,16 @@ def check_submit_step(q: int, present: List[bool], broken: bool, shutdown: bool,
             return (not broken) and shutdown and pending == before and wq.empty()
         except RuntimeError:
             return (not broken) and (not shutdown) and gshut and pending == before and wq.empty()
+        except OSError:
+            # the re-spawn of a missing worker failed inside submit(): whatever was registered keeps its id for
+            # good - the counter is past every id that was ever put in the bookkeeping (ids are never re-used)
+            if not spawn_fails or broken or shutdown or gshut or sl.held:
+                return False
+            ids = set(pending) | set(wq.queue)
+            return all(i < fake._queue_count for i in ids) and all(pending.get(i) is wi for i, wi in before.items())
     finally:
         pe._global_shutdown = old
-    if broken or shutdown or gshut:
+    if broken or shutdown or gshut or spawn_fails:
         return False
     if not isinstance(f, Future) or f._state != PENDING:
         return False
@@ -66,6 +73,12 @@ def check_submit_step(q: int, present: List[bool], broken: bool, shutdown: bool,
         return False
     # manager woken under the shutdown lock; pool topped up; lock released at the end
     return log.count("wakeup", True) == 1 and log.count("ensure", True) == 1 and not sl.held
+
+
+def _ensure(log, sl, spawn_fails):
+    log.add("ensure", sl.held)
+    if spawn_fails:
+        raise OSError(11, "Resource temporarily unavailable")
 
 
 def check_dispatch_step_3(cancelled: List[bool], free: int, n_running: int) -> bool:
